@@ -1,6 +1,46 @@
 # Claim table (executed by tools/mk_manifest.py).  Only properties whose checks exist and pass on
 # the unchanged tree are claimed; everything else is listed under not_applicable with the reason.
-claim('C18', 'Verus contracts on Stack<T> and the VM frame handlers (exact length effects, 65535 limit => OUT OF MEMORY)',
-      'Unbounded deductive proof (Verus/z3) of the contracts of the real Stack methods and RETURN handler extracted verbatim from /repo: every op has its exact effect on the abstract sequence and the size limit turns into OUT OF MEMORY. Partial: statements whose code generation is not under contract are not decided.',
+V = 'Verus (z3) unbounded deductive proof of contracts spliced into the real functions extracted verbatim from /repo on every run'
+claim('C01', 'Verus contracts on the VM control-flow handlers (RETURN, ON, END, STOP/CONT state)',
+      V + ': RETURN unwinds to the topmost pending return address keeping one function value, ON selects the k-th table entry or falls through leaving nothing on the stack, END/CONT save and restore the continuation. Partial: per-function mechanisms only, compiler correctness end to end is not decided (see coverage.not_decided).',
+      'DESIGN.md §7 C01')
+claim('C04', 'Verus representation invariant "dirty flag clear => compiled program == listing" over every listing mutator',
+      V + ': every path that edits the listing (numbered line, bare number, DELETE, RENUM, NEW) re-establishes the invariant and cancels CONT point, pending frames and user functions; a direct line recompiles exactly the listing. Assumes the stated contract of Program::codegen.',
+      'DESIGN.md §7 C04')
+claim('C06', 'Verus contracts on Var (typed store / zero default / slot freeing / no aliasing) and the SWAP handler',
+      V + ': store never keeps a value of another type, converts as assignment, frees default values, touches no other variable; fetch of an unassigned name reads the zero of its type; SWAP rejects mixed types without assigning. Arrays (build_array_key) are not decided.',
+      'DESIGN.md §7 C06')
+claim('C09', 'Verus contracts on READ / RESTORE / CLEAR handlers against the data pointer',
+      V + ': READ delivers data[data_pos] and advances, past the end OUT OF DATA with nothing changed, RESTORE and CLEAR reposition. The data segment layout produced by the linker is assumed in this unit.',
+      'DESIGN.md §7 C09')
+claim('C10', 'Verus contracts on DEF (binding, ILLEGAL DIRECT) and RETURN (one value survives)',
+      V + ': DEF binds (arity, body address) only inside a program; RETURN keeps exactly the function value above the return address. Call-site argument order (Drain iterator) is not decided.',
+      'DESIGN.md §7 C10')
+claim('C12', 'Verus contracts on CLEAR / NEW / Var::clear: every run-relevant field back to start-up value',
+      V + ': stack, variables, arrays, user functions, CONT point and DATA position are reset, the stored program and its compilation are framed out; NEW additionally empties the listing. DEFtype table reset and RNG reseed are not decided.',
+      'DESIGN.md §7 C12')
+claim('C13', 'Verus contracts on interrupt / END / CONT / direct-line entry (save-restore of the continuation)',
+      V + ': interrupt saves (state, pc) and keeps the stack inside a program; CONT restores exactly that; a direct line leaves stack, variables, functions and continuation untouched. Step-quantum independence is not decided.',
+      'DESIGN.md §7 C13')
+claim('C15', 'Verus contracts on line entry / DELETE / LIST handlers and line-number operand conversion (0..65529)',
+      V + ': a numbered line inserts or replaces, a bare number deletes, nothing else changes; bare DELETE is rejected; numbers above 65529 are UNDEFINED LINE. The BTreeMap range iteration of LIST is assumed in this unit.',
+      'DESIGN.md §7 C15')
+claim('C17', 'Verus contract on the INPUT prompt handler (prompt + "? ", caps flag, stack restored)',
+      V + ': the prompt event is the staged prompt followed by "? ", capitalisation is off exactly for the staged 0, and the staging layout is left intact. Reply splitting (CharIndices loop) and numeric text conversion are not decided.',
+      'DESIGN.md §7 C17')
+claim('C18', 'Verus contracts on Stack<T> (exact length effects, 65535 limit => OUT OF MEMORY), Var pool limit, handler stack deltas',
+      V + ': every Stack op has its exact effect on the abstract sequence, the size limit turns into OUT OF MEMORY, the variable pool is limited and frees defaults, ON...GOSUB without a branch leaves nothing. Statements whose code generation is not under contract are not decided.',
       'DESIGN.md §7 C18')
 na('C05', 'Relates lex, Display for Token/Line and lex again; Display output reached through to_string() is an uninterpreted string in Verus and Kani does not finish on 2-character strings (measured): no contract within reach can state it over the real code. See DESIGN.md §7 C05.')
+for _p, _r in [
+    ('C02', 'checks under construction (Kani integer contracts + Verus operator wrappers); not yet registered'),
+    ('C03', 'checks under construction (termination / panic-freedom of the functions under contract); not yet registered'),
+    ('C07', 'string function unit not built yet'),
+    ('C08', 'Kani integer contracts not yet registered'),
+    ('C11', 'PRINT layout unit not built yet'),
+    ('C14', 'RENUM unit not built yet'),
+    ('C16', 'lexer unit not built yet'),
+    ('C19', 'linker diagnostics unit not built yet'),
+    ('C20', 'linker layout unit not built yet'),
+]:
+    na(_p, _r)
